@@ -4,10 +4,11 @@ cd "$(dirname "$0")" || exit 2
 set -e
 command -v java >/dev/null
 test -f /opt/veriftools/tla/tla2tools.jar
+command -v apalache-mc >/dev/null     # C10: the limb lemma at the real base is checked symbolically
 /venv/bin/python -c "import sys; sys.path.insert(0, '${VERIF_REPO:-/repo}'); import cisco_acl, netports"
 mkdir -p evidence replays
 fail=0
-for f in spec/*.tla spec/mc/*.tla spec/trace/*.tla; do
+for f in spec/*.tla spec/mc/*.tla spec/trace/*.tla spec/apalache/*.tla; do
   out=$(cd spec && java -cp /opt/veriftools/tla/tla2tools.jar:/opt/veriftools/tla/CommunityModules-deps.jar \
         -DTLA-Library="$PWD:$PWD/mc:$PWD/trace" tla2sany.SANY "../$f" 2>&1) || true
   if echo "$out" | grep -q -E "^\*\*\* Errors|Fatal errors|Could not find module|Lexical error|\*\*\* Abort"; then
